@@ -164,6 +164,10 @@ structure Sys where
   ackFrames : List Bytes := []
   /-- …and for payloads: (device, plaintext FRMPayload) of every data downlink handed to the gateway. -/
   emittedPl : List (Bytes × Bytes) := []
+  /-- …and for answers: the device of every hand-over of a handled frame to the scheduler (the last
+      step of the uplink handler, in the same step as the publication to the application, and the last
+      step of the join handler). -/
+  notified : List Bytes := []
   deriving Repr, Inhabited
 
 def Sys.init (db : DB) : Sys := { db := db, fob := [], scheduled := [], threads := [], emitted := [], published := [], now := 1 }
@@ -407,7 +411,7 @@ def stepUplink (E : BlockFn) (sys : Sys) (s : UpSt) (fault : Bool) : Sys × List
   | _ =>
     -- hand over to MAC processor / scheduler, publish to the application router; then the next matching device
     let ctx : Ctx := ⟨s.cur, s.cur.appEUI, s.gw, (s.msg.map (·.created)).getD 0⟩
-    let sys := { sys with published := sys.published ++ [⟨s.cur.appEUI, s.cur.eui, s.plain⟩] }
+    let sys := { sys with published := sys.published ++ [⟨s.cur.appEUI, s.cur.eui, s.plain⟩], notified := sys.notified ++ [s.cur.eui] }
     let (sys', ts) := nextDevice sys s
     (sys', ts ++ [.notify s.p ctx])   -- the handler goes on (same thread); the message travels on its own
 
@@ -467,7 +471,7 @@ def stepJoin (E : BlockFn) (cfg : Config) (sys : Sys) (s : JoinSt) (fault : Bool
     ({ sys with fob := fobSetJoinAccept sys.fob s.dev.eui ja }, [.join { s with pc := 6 }])
   | _ =>
     -- notify the scheduler; the frame context carries the device copy made before the keys changed
-    (sys, [.done, .notify s.p ⟨s.ctxDev, jr.appEUI, s.gw, 0⟩])
+    ({ sys with notified := sys.notified ++ [s.ctxDev.eui] }, [.done, .notify s.p ⟨s.ctxDev, jr.appEUI, s.gw, 0⟩])
 
 /-- One operation of the encoder (encoder.go). `D` is the block decryption used for join-accepts. -/
 def stepEncoder (E D : BlockFn) (sys : Sys) (pc : Nat) (p : PHY) (c : Ctx) (bytes : Bytes) (fault : Bool) : Sys × List Thread :=
